@@ -127,7 +127,7 @@ def build_harness():
         hdir = os.path.join(ISO, "harness")
         if not os.path.exists(hdir):
             os.makedirs(ISO, exist_ok=True)
-            subprocess.run(["cp", "-r", HARNESS, hdir], check=True)
+            subprocess.run(["cp", "-rL", HARNESS, hdir], check=True)
             for rel, old, new in (("Cargo.toml", 'path = "/repo"', 'path = "%s"' % REPO),
                                   (".cargo/config.toml", "../build/harness-target", os.path.join(ISO, "harness-target"))):
                 p = os.path.join(hdir, rel)
